@@ -79,7 +79,8 @@ CLAIMED = {
              tech="Lean 4 theorems (DST orthogonality, Finset sums, conversion refinements) on translator output + closed-form numerical sweep (partial)"),
  "C15": dict(text="Theorems on regenerated _low_x_correction and its call sites: the code adds codeTerm(lorch,Qmin,S(Qmin),Qmax,r) "
              "(refinement), which equals int_0^Qmin Q[S_lin(Q)-1] w(Q) sin(Qr) dQ for S_lin = S(Qmin) Q/Qmin, plain and Lorch-damped "
-             "(FTC with explicit antiderivatives; r != 0, r != +-a); zero for Qmin=0; zero at r=0; a function of (Qmin,S(Qmin),Qmax) "
+             "(FTC with explicit antiderivatives; plain: r != 0; Lorch: every r, the poles r = +-pi/Qmax included, after the fix: commit that "
+             "writes the term with sinc forms — found through the hypothesis the earlier proof needed); zero for Qmin=0; zero at r=0; a function of (Qmin,S(Qmin),Qmax) "
              "only; 2/pi applied once in F_to_G. Equality with the compiled Fortran stog_bit and with Gauss-Legendre quadrature of the "
              "model is checked numerically; the discretised-transform-of-extended-data reading holds only in the limit (not a theorem).",
              ref="8 (C15)", tech="Lean 4 theorems (interval integrals via FTC) on translator output + compiled-Fortran/quadrature oracle"),
@@ -95,8 +96,10 @@ CLAIMED = {
              "history-free (storage = concatenation of per-dataset rows), both arrays carry the same Q row after any sequence "
              "(invariant by induction), no stored point outside the global window, S(Q) row = generated conversion of the raw row with "
              "the instance's scattering lengths, scale-then-offset/uncertainty-scaled-only/Q-shift formula, a plain lattice dataset is "
-             "stored whole. 'No point inside both windows is lost' in full generality is checked by the oracle (independent "
-             "recomputation), not proved.", ref="8 (C11), 5",
+             "stored whole. Full statement (P_stored_spec): for every well-formed dataset the stored as-given rows are, as a list of "
+             "(Q, y, dy) triples in order and with multiplicity, exactly the rounded input rows inside the per-dataset window, each "
+             "adjusted (scale, offset, Q shift, 0.01 lattice), then those inside the global window; hence no point inside both windows "
+             "is lost, none is invented, the columns stay aligned (which discharges the premise of C10's order-independence theorem).", ref="8 (C11), 5, 23",
              tech="Lean 4 theorems on a hand-written model + generated code; op-sequence correspondence; recomputation oracle"),
  "C17": dict(text="Theorems on the hand model of the tail of merge_data for all 16 present/absent subsets of the four option keys: stored "
              "Q[S-1] = cF*Q*(aS*mean+bS-1)+dF; stored S = F/Q+1 for Q>0; F = Q(S-1) on the common grid; each absent key == its identity "
